@@ -531,6 +531,21 @@ func famAdversarial(sh *Shards, n int, stats map[string]int) error {
 		long = append(long, 0xc0, 0x80, 0x80, 0x21, 0x82, 0x80, 0x80, 0x82, 0xe1)
 	}
 	emit("adv/long", long)
+	// gradients whose stops are all valid (strictly increasing offsets k/120, opaque black colours from
+	// the default palette) at every base, so that CBASE+i and NBASE+i wrap past register 63
+	for _, base := range []int{0, 5, 10, 54, 58, 60, 62, 63} {
+		for _, ns := range []int{2, 3, 7, 10, 40, 63} {
+			for _, shape := range []byte{0x80, 0xc0} {
+				b := m([]byte{0x40 | byte(base)})
+				for i := 0; i < ns; i++ {
+					b = append(b, 0xbf, byte(2*(i+1))) // NREG[NSEL] = (i+1)/120; NSEL++
+				}
+				b = append(b, 0x98, byte(ns), byte(base)|0x40, byte(base)|shape, 0x00) // CREG[CSEL] = gradient
+				b = append(b, 0xc0, 0x80, 0x80, 0x01, 0x90, 0x80, 0x90, 0x90, 0xe1)
+				emit(fmt.Sprintf("adv/gradwrap/%d/%d/%x", base, ns, shape), b)
+			}
+		}
+	}
 	// gradients with every NSTOPS, wrap-around bases
 	for ns := 0; ns < 64; ns++ {
 		emit(fmt.Sprintf("adv/nstops%d", ns), m([]byte{0x98, byte(ns), 0x3a | 0x40, 0x80 | 0x3e, 0x00, 0xc0, 0x80, 0x80, 0x00, 0x90, 0x90, 0xe1}))
